@@ -12,7 +12,7 @@ import (
 func init() {
 	Register(&Property{
 		ID: "C11", Level: "exploration",
-		Rule: "E1: alternatives n<=4 with values {0,1,2}^2 (full product), n=5 with {0,1}^2 (thorough: n=5 {0,1,2}, n=6 {0,1}), the 1e-6 tie neighbourhood {1,1+5e-7,1+2e-6} for n=3, " +
+		Rule: "E1: alternatives n<=4 with values {0,1,2}^2 (full product), n=5 with {0,1}^2 (thorough: n=5 {0,1,2}, n=6 {0,1}), the 1e-6 tie neighbourhood {1,1+5e-7,1+2e-6} and large magnitudes {2e9,2e9+300,2e9+700} for n=3, choseToMake also listed in descending id order (n=3,4), " +
 			"3 criteria {0,1}^3 for n<=3; x gain/cost/type-omitted x weights {(1,1),(2,1)} / {(1,2,3),(1,1,2),(0.1,0.2,0.3)} x 4 draw policies (+default) x currentChoice {none, first considered, last considered, known-not-considered} " +
 			"x order {fixed; random with scripted generator answers: 5 constant scripts + every single deviation (thorough: two) from the all-zero script over menu {0,.25,.5,.75,1-ulp}}. " +
 			"Oracle: stated per-entry invariants + equality with a reference tournament (existential over search orders / coin sequences where the statement leaves them open). " +
@@ -66,7 +66,7 @@ func majEnumerate(s *Shard, prop string, fn func(c *Case)) {
 		m      int
 	}
 	grids := []grid{{1, []float64{0, 1, 2}, 2}, {2, []float64{0, 1, 2}, 2}, {3, []float64{0, 1, 2}, 2}, {4, []float64{0, 1, 2}, 2}, {5, []float64{0, 1}, 2},
-		{3, []float64{1, 1 + 5e-7, 1 + 2e-6}, 2}, {2, []float64{0, 1}, 3}, {3, []float64{0, 1}, 3}}
+		{3, []float64{1, 1 + 5e-7, 1 + 2e-6}, 2}, {2, []float64{0, 1}, 3}, {3, []float64{0, 1}, 3}, {3, []float64{2e9, 2e9 + 300, 2e9 + 700}, 2}}
 	if !quick(s) {
 		grids = append(grids, grid{5, []float64{0, 1, 2}, 2}, grid{6, []float64{0, 1}, 2}, grid{4, []float64{0, 1}, 3})
 	}
@@ -104,6 +104,10 @@ func majEnumerate(s *Shard, prop string, fn func(c *Case)) {
 						for _, cc := range currents {
 							cfg := majCfg{N: g.n, Vals: vals, Types: types, Weights: w, Policy: pol, Current: cc}
 							fn(&Case{Prop: prop, Kind: "majority", Req: majRequest(cfg)})
+							if g.n >= 3 && g.n <= 4 && g.m == 2 && len(g.levels) == 3 && g.levels[2] == 2 {
+								cfg.Reverse = true // choseToMake listed in descending id order
+								fn(&Case{Prop: prop, Kind: "majority", Req: majRequest(cfg)})
+							}
 						}
 					}
 				}
